@@ -666,16 +666,15 @@ def run(tier, replay=None):
     procs = max(2, min(16, os.cpu_count() or 4))
 
     # 1 + 2a. TLC: exhaustive check, defect variants, history dumps - run side by side
-    with ThreadPoolExecutor(max_workers=8) as ex:
-        f_mc = ex.submit(tlc.model_check, SPEC, 'WsFraming', 'MC_WsFraming.cfg' if quick else 'MC_WsFraming_thorough.cfg',
-                         coverage=True, workers=8, timeout=1500)
-        # thorough: also all eight length classes (two frames)
-        f_mc2 = None if quick else ex.submit(tlc.model_check, SPEC, 'WsFraming', 'MC_WsFraming_lens_thorough.cfg',
-                                             workers=6, timeout=1500)
+    with ThreadPoolExecutor(max_workers=10) as ex:
+        # the small configuration carries -coverage (no dead action); the larger ones run without
+        f_mc = ex.submit(tlc.model_check, SPEC, 'WsFraming', 'MC_WsFraming.cfg', coverage=True, workers=8, timeout=1500)
+        f_more = [] if quick else [ex.submit(tlc.model_check, SPEC, 'WsFraming', cfg, workers=8, timeout=2400)
+                                   for cfg in ('MC_WsFraming_thorough.cfg', 'MC_WsFraming_lens_thorough.cfg')]
         f_def = {d: ex.submit(tlc.run_tlc, SPEC, 'WsFraming', cfg, workers=2) for d, cfg in DEFECT_CFGS.items()}
-        f_hist = [ex.submit(dump_histories, cfg, 1500, 4) for cfg in HIST_CFGS[tier]]
+        f_hist = [ex.submit(dump_histories, cfg, 2400, 4) for cfg in HIST_CFGS[tier]]
         mc = f_mc.result()
-        mc2 = f_mc2.result() if f_mc2 else None
+        more = [f.result() for f in f_more]
         gens = {d: f.result() for d, f in f_def.items()}
         dumps = [f.result() for f in f_hist]
     lap('tlc_model_and_histories')
@@ -715,7 +714,7 @@ def run(tier, replay=None):
 
     # 3. enumerated byte-at-a-time cases and seeded random larger ones (code -> spec)
     cases += bytewise_cases(quick)
-    for i in range(1500 if quick else 20000):
+    for i in range(1500 if quick else 12000):
         cases.append(random_case(rnd, i, quick))
 
     results = run_cases(cases, procs)
@@ -724,7 +723,7 @@ def run(tier, replay=None):
     # 4. TLC judges every recorded trace
     traces = [as_trace(c, lines) for c, (lines, aux) in zip(cases, results)]
     verdicts, stats = tlc.validate_traces(SPEC, 'WsFramingTrace', 'WsFramingTrace.cfg', traces,
-                                          shards=8 if quick else 16, timeout=1500)
+                                          shards=8 if quick else 16, timeout=3000)
     lap('trace_validation')
     accepted = []
     n_cmp = n_match = 0
@@ -768,8 +767,11 @@ def run(tier, replay=None):
     lap('compare_and_corrupted_traces')
     return ctx.finish(coverage={
         'phase_wall_s': phases,
-        'states': mc.distinct + (mc2.distinct if mc2 else 0),
-        'transitions': mc.generated + (mc2.generated if mc2 else 0),
+        'states': mc.distinct + sum(m.distinct for m in more),
+        'transitions': mc.generated + sum(m.generated for m in more),
+        'model_check_runs': [{'cfg': c, 'distinct': m.distinct, 'generated': m.generated, 'wall_s': round(m.wall_s, 1)}
+                             for c, m in zip(['MC_WsFraming.cfg', 'MC_WsFraming_thorough.cfg',
+                                              'MC_WsFraming_lens_thorough.cfg'], [mc] + more)],
         'traces_validated_against_impl': len(traces),
         'model_histories_replayed': nhist,
         'history_dump_states': hist_states,
